@@ -129,6 +129,28 @@ C08Layer(t, n) ==
          THEN "C08.summary-time layer " \o ToString(n) \o ": summary() kernel/dilation differ from the exported layer"
          ELSE "ok"
 
+(* standalone BatchNorm layers (op "bns"): summary(), exported size and exported statistics follow the alive channels *)
+BNs(t)  == IF "B" \in DOMAIN t THEN t.B ELSE <<>>
+EBNs(t) == IF "B" \in DOMAIN t.E THEN t.E.B ELSE <<>>
+RECURSIVE BnWalk(_, _, _)
+BnWalk(t, which, i) ==
+    IF i > Len(BNs(t)) THEN "ok"
+    ELSE LET a == t.arch  b == BNs(t)[i]  reach == ActM(a, M(t), In1(a, b.n))
+             es == {j \in DOMAIN EBNs(t) : EBNs(t)[j].n = b.n}
+             v == IF ~b.ok THEN which \o ".bn layer " \o ToString(b.n) \o ": the BatchNorm cannot report its size"
+                  ELSE IF which = "C09" /\ b.sum_nf # Count(reach)
+                       THEN "C09.bn layer " \o ToString(b.n) \o ": summary() reports " \o ToString(b.sum_nf)
+                                \o " features, " \o ToString(Count(reach)) \o " are alive in the tensor that reaches it"
+                  ELSE IF which = "C01" /\ Pat(b.told) # reach
+                       THEN "C01.bn-told layer " \o ToString(b.n) \o ": mask used for slicing the BatchNorm differs from the alive pattern of its input"
+                  ELSE IF t.E.export_ok /\ es # {} /\
+                          LET e == EBNs(t)[CHOOSE j \in es : TRUE] IN
+                              \/ e.nf # Count(reach)
+                              \/ (which = "C01" /\ (Idx1(e.idx) # Positions1(reach) \/ ~Ascending(e.idx)))
+                       THEN which \o ".bn-export layer " \o ToString(b.n) \o ": exported BatchNorm does not keep exactly the statistics of the alive channels, in order"
+                  ELSE "ok"
+         IN IF v # "ok" THEN v ELSE BnWalk(t, which, i + 1)
+
 (* predictions of the as-implemented model (drift only) *)
 DriftLayer(t, n) ==
     LET a == t.arch  r == LRec(t, n) IN
@@ -208,17 +230,19 @@ Chain(vs) == IF \A i \in DOMAIN vs : vs[i] = "ok" THEN "ok"
              ELSE vs[CHOOSE i \in DOMAIN vs : vs[i] # "ok" /\ \A j \in 1..(i - 1) : vs[j] = "ok"]
 
 CheckProps(t) ==
-    IF ~t.conv_ok THEN Fail(t, "C09.convert: conversion raised " \o t.conv_err)
+    IF ~t.conv_ok /\ RejectedFusion(t.arch) /\ t.conv_rejected_fusion
+    THEN "outside:the conversion rejects (ValueError, multiple users) a searchable layer whose output feeds a BatchNorm and another node"
+    ELSE IF ~t.conv_ok THEN Fail(t, "C09.convert: conversion raised " \o t.conv_err)
     ELSE IF ~t.fwd_ok THEN Fail(t, "C09.forward: the converted model cannot run: " \o t.fwd_err)
     ELSE
     LET v09 == IF t.props.C09
-               THEN Chain(<<Walk(t, "C09", 1),
+               THEN Chain(<<Walk(t, "C09", 1), BnWalk(t, "C09", 1),
                             IF AddsAligned(t) THEN "ok" ELSE "C09.add: the two sides of a residual sum carry different alive patterns",
                             ExportRuns(t, "C09")>>)
                ELSE "ok"
         v08 == IF t.props.C08 THEN Chain(<<ExportRuns(t, "C08"), Walk(t, "C08", 1)>>) ELSE "ok"
         v01 == IF t.props.C01 /\ ~NonCausalPruned(t)
-               THEN Chain(<<ExportRuns(t, "C01"), Walk(t, "C01", 1),
+               THEN Chain(<<ExportRuns(t, "C01"), Walk(t, "C01", 1), BnWalk(t, "C01", 1),
                             IF t.E.out_equal THEN "ok" ELSE "C01.output: exported network and masked network differ (rel. diff e-12: "
                                                                 \o ToString(t.E.diff) \o ")">>)
                ELSE "ok"
